@@ -428,6 +428,12 @@ struct KeyPool
     add("A", "plain");                               // 15
     add("active_spam", "near-span");                 // 16
     add("active_spa", "near-span");                  // 17
+    // 18..27: key lengths around the sizes an implementation may treat specially (inline / small-buffer storage
+    // of 8, 16, 24 or 32 bytes).  Reached through the "long" draws only (gen_key), so the decoding of the
+    // eighteen keys above - and of every saved replay - is unchanged.  (Seeded C10-m12: keys of up to 16
+    // characters stored inline, the move of a 16-character key steals a pointer into the dying node.)
+    for (size_t len : {7u, 8u, 15u, 16u, 17u, 23u, 24u, 31u, 32u, 33u})
+      add(std::string(len, 'q'), "length-boundary");
   }
 };
 const KeyPool &pool()
@@ -442,7 +448,12 @@ unsigned gen_key(vh::Reader &rd)
   // half of the draws come from a handful of keys so that re-binding is frequent
   if (rd.chance(50))
     return rd.below(5);
-  return rd.below(static_cast<uint32_t>(pool().k.size()));
+  // one byte: its remainder picks one of the first eighteen keys (as rd.below(18) always did); when that is one of
+  // the two long keys, the quotient sends most draws on to a key of boundary length
+  unsigned b = rd.u8(), idx = b % 18, q = b / 18;
+  if ((idx == 11 || idx == 12) && q >= 4)
+    idx = 18 + (q - 4 + (idx == 12 ? 5 : 0)) % 10;
+  return idx;
 }
 
 std::string show_key(const std::string &k)
